@@ -25,7 +25,16 @@ place=$(echo "$place" | sed "s|<repo>/||g; s|<repo>||g; s|<worktree>/||g; s|WORK
 demodir=$(echo "$place" | grep -oE '[a-zA-Z0-9_.-]+(/[a-zA-Z0-9_.-]+)*/' | head -1)
 [ -z "$demodir" ] && demodir=$(git diff --name-only | head -1 | xargs dirname)/
 demodir=${demodir#/tmp/wt-*/}
-for f in $src/*; do case $f in *.diff|*meta.json) ;; *) mkdir -p $wt/$demodir; cp -r $f $wt/$demodir/;; esac; done
+for f in $src/*; do case $f in *.diff|*meta.json) ;; *)
+  d=$(python3 -c "
+import json,sys,os
+m=json.load(open('$src/meta.json')); df=m.get('demo_files') or {}
+d=df.get(os.path.basename('$f'),'')
+d=d.replace('<repo>/','').replace('<repo>','').strip('/')
+if d.endswith('.go'): d=os.path.dirname(d)
+print(d)" 2>/dev/null)
+  [ -z "$d" ] && d=$demodir
+  mkdir -p $wt/$d; cp -r $f $wt/$d/;; esac; done
 cmd=$(echo "$demo_cmd" | sed "s|/tmp/wt-[a-z0-9]*|$wt|g; s|<repo>|$wt|g; s|<worktree>|$wt|g; s|WORKTREE|$wt|g")
 ( cd $wt && timeout 900 bash -c "$cmd" ) >/tmp/sv-demo-with.log 2>&1; with=$?
 git apply -R $src/patch.diff
